@@ -131,6 +131,13 @@ impl<'a> Gen<'a> {
             if i != j { p.asset_denoms[j] = p.asset_denoms[i].clone(); }
         }
         let mut funds = self.creation_funds();
+        // with a waived creation fee the exact funds are the factory fees alone: nothing / one unit less / one more are all wrong
+        let zero_fee = self.run.h.w.app.wrap().query_wasm_smart::<mantra_dex_std::pool_manager::Config>(self.run.h.w.a("pm"), &mantra_dex_std::pool_manager::QueryMsg::Config {})
+            .map(|c| c.pool_creation_fee.amount.is_zero()).unwrap_or(false);
+        if zero_fee && self.r.chance(1, 3) {
+            match self.r.below(3) { 0 => { funds.clear(); } 1 => { if let Some(c) = funds.first_mut() { c.amount = c.amount.saturating_sub(cosmwasm_std::Uint128::one()); } } _ => { if let Some(c) = funds.first_mut() { c.amount += cosmwasm_std::Uint128::one(); } } }
+            funds.retain(|c| !c.amount.is_zero());
+        }
         match self.r.below(30) {
             0 => { funds.pop(); }
             1 => { if let Some(c) = funds.first_mut() { c.amount += cosmwasm_std::Uint128::one(); } }
@@ -169,10 +176,13 @@ impl<'a> Gen<'a> {
             opt_dec_str(self.r, &[None, Some(10_000_000_000_000_000), Some(0), Some(1_000_000_000_000_000_001), Some(1_000_000_000_000_000)])
         }
     }
-    /// deposit tolerance: none most of the time (stableswap pools reject any realistic one, F-11)
+    /// deposit tolerance: none most of the time (stableswap pools reject any realistic one, F-11); on constant-product pools
+    /// every valid value incl. the two ends of the range, exactly 0 and exactly 100 %
     fn liq_slip(&mut self, stable: bool) -> String {
         if stable { if self.r.chance(1, 8) { self.slip() } else { "-".into() } }
-        else if self.r.chance(1, 2) { "-".into() } else { self.slip() }
+        else if self.r.chance(1, 2) { "-".into() }
+        else if self.r.chance(1, 5) { ["1000000000000000000", "0", "999999999999999999", "1"][self.r.below(4) as usize].to_string() }
+        else { self.slip() }
     }
 
     fn receiver(&mut self, sender: &str) -> String {
@@ -254,7 +264,17 @@ impl<'a> Gen<'a> {
             if let Some(q) = self.run.h.all_positions().iter().find(|q| q.identifier == lockid) { recv = self.run.h.w.n(q.receiver.as_str()); }
         }
         // funds carry canonical denoms (LP denoms never here)
-        self.emit(format!("tx {} {} pm provide {} {} {} {} {} {}", sender, funds_str(&funds), pi.pool_identifier, ls, ss, recv, unlock, lockid));
+        let res = self.emit(format!("tx {} {} pm provide {} {} {} {} {} {}", sender, funds_str(&funds), pi.pool_identifier, ls, ss, recv, unlock, lockid));
+        // C13, monotonicity in the tolerance: a deposit REFUSED under a tolerance t is attempted again under a smaller one —
+        // if that is accepted, the larger tolerance rejected what the smaller accepts (`mon_tol_monotone`)
+        if !res.starts_with("ok") && !stable && funds.len() == 2 && ls != "-" && self.r.chance(2, 3) {
+            if let Ok(t) = ls.parse::<u128>() {
+                if t > 0 && t <= 1_000_000_000_000_000_000 {
+                    let smaller = match self.r.below(3) { 0 => 0u128, 1 => t / 2, _ => t - 1 };
+                    self.emit(format!("tx {} {} pm provide {} {} {} {} {} {}", sender, funds_str(&funds), pi.pool_identifier, smaller, ss, recv, unlock, lockid));
+                }
+            }
+        }
     }
 
     pub fn op_swap(&mut self) {
@@ -417,7 +437,8 @@ impl<'a> Gen<'a> {
             let p = &pools[self.r.below(pools.len() as u64) as usize];
             (p.pool_info.pool_identifier.clone(), tb(self.r), tb(self.r), tb(self.r))
         } else if self.r.chance(1, 4) { ("o.nope".to_string(), "false".into(), "-".into(), "-".into()) } else { ("-".into(), "-".into(), "-".into(), "-".into()) };
-        let (fd, fa) = match self.r.below(6) { 0 => ("uusd".to_string(), "500".to_string()), 1 => ("uom".to_string(), "250".to_string()), 2 => ("uusd".to_string(), "0".to_string()), _ => ("-".into(), "-".into()) };
+        let (fd, fa) = match self.r.below(7) { 0 => ("uusd".to_string(), "500".to_string()), 1 => ("uom".to_string(), "250".to_string()), 2 => ("uusd".to_string(), "0".to_string()),
+            3 => ("uom".to_string(), "0".to_string()), _ => ("-".into(), "-".into()) };
         let fc = match self.r.below(12) { 0 => "u4", 1 => "bogus", _ => "-" };
         let funds = if self.r.chance(1, 15) { vec![coin(1, "uom")] } else { vec![] };
         self.emit(format!("tx {} {} pm config {} - {} {} {} {} {} {}", sender, funds_str(&funds), fc, fd, fa, tp, s, d, w));
@@ -993,6 +1014,161 @@ impl<'a> Gen<'a> {
         if self.r.chance(1, 2) { self.emit(format!("tx {} 0 fm withdrawpos u-xha{} true", ua, tag)); }
     }
 
+    /// directed scenario for C06 / C07: a user who already has a claim cursor (from another LP token) enters a SECOND LP
+    /// token late — epochs after a farm on it started paying other stakers — and claims only a few epochs later: the
+    /// epochs between the cursor and the entry must not be paid (the weight took effect the epoch after the entry)
+    pub fn op_scenario_late_entry_second_lp(&mut self) {
+        let lps: Vec<String> = self.run.h.lps.clone();
+        let held: Vec<String> = lps.iter().filter(|l| !self.lp_holders(l).is_empty()).cloned().collect();
+        if held.len() < 2 { return self.op_provide(); }
+        // lp_x: the token entered late; lp_o: the token the cursor comes from
+        let (lp_o, lp_x) = if self.r.chance(1, 2) { (held[0].clone(), held[1].clone()) } else { (held[1].clone(), held[0].clone()) };
+        let hx = self.lp_holders(&lp_x);
+        let carol = hx[0];
+        // bob: somebody holding lp_o (is sent some lp_x if needed) and different from carol
+        let Some(bob) = self.lp_holders(&lp_o).into_iter().find(|u| *u != carol) else { return self.op_provide() };
+        if self.run.h.w.balance(bob, &lp_x) <= 10 {
+            let amt = self.run.h.w.balance(carol, &lp_x) / 3 + 1;
+            self.emit(format!("send {} {} 1 {} {}", carol, bob, lp_x, amt));
+        }
+        if self.run.h.w.balance(bob, &lp_x) <= 10 || self.run.h.w.balance(carol, &lp_x) <= 10 { return self.op_provide(); }
+        let tag = self.r.below(10_000);
+        let cur = self.cur_epoch();
+        let aa = 10_000 * (1 + self.r.below(50) as u128);
+        let asset = coin(aa, "uusdc");
+        let funds = self.farm_fee_funds(&asset);
+        self.emit(format!("tx u1 {} fm createfarm {} {} {} uusdc {} le{}", funds_str(&funds), lp_x, cur + 2, cur + 12, aa, tag));
+        let (bc, bo) = (self.run.h.w.balance(carol, &lp_x), self.run.h.w.balance(bob, &lp_o));
+        self.emit(format!("tx {} 1 {} {} fm createpos lec{} {} -", carol, lp_x, bc / 7 + 1, tag, DAY));
+        self.emit(format!("tx {} 1 {} {} fm createpos leo{} {} -", bob, lp_o, bo / 7 + 1, tag, DAY));
+        self.emit(format!("advance {}", DAY * 1_000_000_000));
+        self.emit(format!("tx {} 0 fm claim -", bob));                     // bob's cursor: epoch cur + 1
+        let gap1 = 2 + self.r.below(3);
+        self.emit(format!("advance {}", gap1 * DAY * 1_000_000_000));
+        let bx = self.run.h.w.balance(bob, &lp_x);
+        self.emit(format!("tx {} 1 {} {} fm createpos lex{} {} -", bob, lp_x, bx / 3 + 1, tag, DAY));   // late entry
+        let gap2 = 1 + self.r.below(3);
+        self.emit(format!("advance {}", gap2 * DAY * 1_000_000_000));
+        self.emit(format!("tx {} 0 fm claim -", bob));
+        self.emit(format!("tx {} 0 fm claim -", carol));
+        self.emit(format!("advance {}", 9 * DAY * 1_000_000_000));
+        self.emit(format!("tx {} 0 fm claim -", carol));
+        self.emit(format!("tx {} 0 fm claim -", bob));
+    }
+
+    /// directed scenario for C11 / C20: a farm with an explicit identifier and a reward that does NOT divide evenly over its
+    /// epochs; the owner tries to expand it exactly in its end epoch and one epoch before ("only before it ends"); the farm
+    /// then expires with an unclaimed remainder, and somebody creates a farm with the SAME identifier on the same LP token —
+    /// the expired farm is closed and refunded by that creation (under fault enumeration: also with the refund failing),
+    /// and the new farm must exist afterwards
+    pub fn op_scenario_farm_end_and_recreate(&mut self) {
+        let Some(lp) = self.some_lp() else { return self.op_provide() };
+        let real = self.run.h.w.rd(&lp);
+        let cfg: mantra_dex_std::farm_manager::Config = self.run.h.w.app.wrap()
+            .query_wasm_smart(self.run.h.w.a("fm"), &mantra_dex_std::farm_manager::QueryMsg::Config {}).unwrap();
+        if self.farms().iter().filter(|f| f.lp_denom == real).count() as u32 >= cfg.max_concurrent_farms { return self.op_advance(); }
+        let tag = self.r.below(10_000);
+        let cur = self.cur_epoch();
+        let epochs = 3 + self.r.below(4);
+        let rate = 200 + self.r.below(800) as u128;
+        let dust = 1 + self.r.below((rate - 1).min(150) as u64) as u128;
+        let aa = (rate * epochs as u128 + dust).max(1000);
+        let ad = ["uusdc", "uom", "udai"][self.r.below(3) as usize];
+        let asset = coin(aa, ad);
+        let funds = self.farm_fee_funds(&asset);
+        let owner = ["u2", "u3", "u1"][self.r.below(3) as usize];
+        self.emit(format!("tx {} {} fm createfarm {} {} {} {} {} er{}", owner, funds_str(&funds), lp, cur + 1, cur + 1 + epochs, ad, aa, tag));
+        let Some(f) = self.farms().into_iter().find(|f| f.identifier == format!("m-er{}", tag)) else { return };
+        let r = f.emission_rate.u128().max(1);
+        // one epoch before the end: an expansion is fine; in the end epoch: refused
+        let to_before_end = f.preliminary_end_epoch.saturating_sub(1).saturating_sub(cur);
+        if to_before_end > 0 { self.emit(format!("advance {}", to_before_end * DAY * 1_000_000_000)); }
+        if self.r.chance(1, 2) {
+            self.emit(format!("tx {} {} fm expandfarm {} - - {} {} {}", owner, funds_str(&[coin(r, ad)]), lp, ad, r, f.identifier));
+        }
+        let Some(f) = self.farms().into_iter().find(|f| f.identifier == format!("m-er{}", tag)) else { return };
+        let cur2 = self.cur_epoch();
+        if f.preliminary_end_epoch > cur2 { self.emit(format!("advance {}", (f.preliminary_end_epoch - cur2) * DAY * 1_000_000_000)); }
+        self.emit(format!("tx {} {} fm expandfarm {} - - {} {} {}", owner, funds_str(&[coin(r * 2, ad)]), lp, ad, r * 2, f.identifier));
+        // past the expiry, then the same identifier again on the same LP token, by somebody else
+        let Some(f) = self.farms().into_iter().find(|f| f.identifier == format!("m-er{}", tag)) else { return };
+        let cur3 = self.cur_epoch();
+        let wait = (f.preliminary_end_epoch + 2).saturating_sub(cur3) * DAY + cfg.farm_expiration_time + DAY;
+        self.emit(format!("advance {}", wait * 1_000_000_000));
+        let cur4 = self.cur_epoch();
+        let aa2 = 5000 + self.r.below(100_000) as u128;
+        let ad2 = if self.r.chance(1, 2) { ad } else { "uusdt" };
+        let funds2 = self.farm_fee_funds(&coin(aa2, ad2));
+        let other = ["u4", "owner", "u1"].into_iter().find(|x| *x != owner).unwrap();
+        self.emit(format!("tx {} {} fm createfarm {} {} {} {} {} er{}", other, funds_str(&funds2), lp, cur4 + 1, cur4 + 5, ad2, aa2, tag));
+    }
+
+    /// directed scenario for C16: the owner waives the pool creation fee IN THE DENOM THE TOKEN FACTORY CHARGES IN, while the
+    /// pool manager holds reserves of that denom; then pools are created with nothing / one unit too little / one unit too
+    /// much / exactly the factory fee attached — only the last is acceptable, and nothing may come out of the reserves
+    pub fn op_scenario_waived_creation_fee(&mut self) {
+        let Some(tf) = self.run.h.w.cfg.tf_fees.first().cloned() else { return self.op_create_pool() };
+        let d = tf.denom.clone();
+        let other = if d == "uusdc" { "uusdt" } else { "uusdc" };
+        let tag = self.r.below(1000);
+        // a funded pool holding the factory-fee denom
+        let funds0 = self.creation_funds();
+        self.emit(format!("tx u1 {} pm create cp 0 2 {} 6 {} 6 0 0 0 - wf{}", funds_str(&funds0), d, other, tag));
+        let mut dep = vec![coin(5_000_000, d.clone()), coin(5_000_000, other)]; dep.sort_by(|a, b| a.denom.cmp(&b.denom));
+        self.emit(format!("tx u2 {} pm provide o.wf{} - - - - -", funds_str(&dep), tag));
+        // the current owner waives the fee
+        let own = self.run.h.ownership("pm");
+        let owner = own.split('/').next().unwrap_or("owner").to_string();
+        self.emit(format!("tx {} 0 pm config - - {} 0 - - - -", owner, d));
+        let exact = self.creation_funds();
+        let mut k = 0;
+        for variant in 0..4u64 {
+            let mut f = exact.clone();
+            match variant {
+                0 => f.clear(),
+                1 => { if let Some(c) = f.iter_mut().find(|c| c.denom == d) { c.amount = c.amount.saturating_sub(cosmwasm_std::Uint128::one()); } }
+                2 => { if let Some(c) = f.iter_mut().find(|c| c.denom == d) { c.amount += cosmwasm_std::Uint128::one(); } }
+                _ => {}
+            }
+            f.retain(|c| !c.amount.is_zero());
+            k += 1;
+            let sender = SENDERS[self.r.below(4) as usize];
+            self.emit(format!("tx {} {} pm create cp 0 2 uluna 6 udai 6 0 0 0 - wv{}x{}", sender, funds_str(&f), tag, k));
+        }
+    }
+
+    /// directed scenario for C12 / C04: two constant-product pools on the SAME pair at different prices, then a route that
+    /// goes out through one and comes back through the other (each pool visited once): the amount received must be the
+    /// SimulateSwapOperations answer, and nothing but the final output may reach the receiver
+    pub fn op_scenario_twin_pools_cycle(&mut self) {
+        let tag = self.r.below(1000);
+        let pairs = [("uom", "uusdc"), ("uluna", "uusdt"), ("udai", "uom"), ("uusdc", "uusdt")];
+        let (a, b) = pairs[self.r.below(4) as usize];
+        let mut funds = self.creation_funds();
+        funds.sort_by(|x, y| x.denom.cmp(&y.denom));
+        let fees = ["1000000000000000 2000000000000000 0 -", "0 0 0 -", "3000000000000000 1000000000000000 1000000000000000 1000000000000000"];
+        let (f1, f2) = (fees[self.r.below(3) as usize], fees[self.r.below(3) as usize]);
+        self.emit(format!("tx u1 {} pm create cp 0 2 {} 6 {} 6 {} tw{}a", funds_str(&funds), a, b, f1, tag));
+        self.emit(format!("tx u1 {} pm create cp 0 2 {} 6 {} 6 {} tw{}b", funds_str(&funds), a, b, f2, tag));
+        let x = 1_000_000 * (1 + self.r.below(1000) as u128);
+        let mut d1 = vec![coin(x, a), coin(x, b)]; d1.sort_by(|p, q| p.denom.cmp(&q.denom));
+        let mut d2 = vec![coin(x, a), coin(x * (2 + self.r.below(3) as u128), b)]; d2.sort_by(|p, q| p.denom.cmp(&q.denom));
+        self.emit(format!("tx u2 {} pm provide o.tw{}a - - - - -", funds_str(&d1), tag));
+        self.emit(format!("tx u3 {} pm provide o.tw{}b - - - - -", funds_str(&d2), tag));
+        let amt = x / [1000u128, 100, 20][self.r.below(3) as usize] + 1;
+        let (first, second) = if self.r.chance(1, 2) { ("a", "b") } else { ("b", "a") };
+        let sq = format!("2 {} {} o.tw{}{} {} {} o.tw{}{}", a, b, tag, first, b, a, tag, second);
+        self.q(format!("q simops {} {}", amt, sq));
+        let sender = SENDERS[self.r.below(4) as usize];
+        self.emit(format!("tx {} {} pm route {} - - 500000000000000000", sender, funds_str(&[coin(amt, a)]), sq));
+        // three hops ending in the start denom as well: out, back, out again (A->B, B->A, A->B)
+        if self.r.chance(1, 2) {
+            let sq3 = format!("3 {} {} o.tw{}{} {} {} o.tw{}{} {} {} o.tw{}{}", a, b, tag, first, b, a, tag, second, a, b, tag, first);
+            self.q(format!("q simops {} {}", amt, sq3));
+            self.emit(format!("tx {} {} pm route {} - - 500000000000000000", sender, funds_str(&[coin(amt, a)]), sq3));
+        }
+    }
+
     /// directed scenario for C11 / C09: move the clock to the instant a farm expires (end of its last
     /// epoch + expiration time), one second / one epoch around it, then run an operation that consults
     /// `is_farm_expired` (farm creation on the same LP token = automatic close; expand; emergency exit)
@@ -1076,6 +1252,8 @@ pub fn gen_cfg(r: &mut Rng) -> WorldCfg {
         0 => { c.tf_fees = vec![coin(1000, "uusd")]; }                       // same denom as the pool creation fee
         1 => { c.tf_fees = vec![coin(1000, "uom"), coin(5, "uluna")]; }
         2 => { c.pool_creation_fee = coin(0, "uusd"); }
+        // creation fee waived in the very denom the token factory charges in (exactly the factory fee is due then)
+        3 if r.chance(1, 2) => { c.pool_creation_fee = coin(0, "uom"); }
         _ => {}
     }
     match r.below(5) {
@@ -1106,7 +1284,7 @@ pub fn gen_pm_case(r: &mut Rng, id: u64, len: u64, faults: bool, o: &mut Out) {
         // everybody leaves a constant-product pool and somebody deposits again
         for _ in 0..2 { g.op_create_pool(); }
         for _ in 0..6 { g.op_provide(); }
-        if (id / 3) % 2 == 0 { g.op_scenario_disabled_route(); } else { g.op_scenario_full_exit_redeposit(); }
+        match (id / 3) % 4 { 0 => g.op_scenario_disabled_route(), 1 => g.op_scenario_full_exit_redeposit(), 2 => g.op_scenario_twin_pools_cycle(), _ => g.op_scenario_waived_creation_fee() }
     }
     while g.ops < len {
         match g.r.below(40) {
@@ -1146,7 +1324,9 @@ pub fn gen_fm_case(r: &mut Rng, id: u64, len: u64, faults: bool, o: &mut Out) {
     for _ in 0..6 { g.op_provide(); }
     // every second case starts with one directed scenario, in rotation, whatever the seed
     if let Some(k) = scen {
-        match k % 11 {
+        match k % 13 {
+            12 => g.op_scenario_farm_end_and_recreate(),
+            11 => g.op_scenario_late_entry_second_lp(),
             10 => g.op_scenario_exhausted_farm_emergency(),
             9 => g.op_scenario_interleaved_positions(),
             8 => g.op_scenario_many_farms(),
@@ -1182,7 +1362,8 @@ pub fn gen_fm_case(r: &mut Rng, id: u64, len: u64, faults: bool, o: &mut Out) {
             40 => if g.r.chance(1, 2) { g.op_scenario_piecewise_close() } else { g.op_advance() },
             41 => match g.r.below(4) { 0 | 1 => g.op_scenario_close_after_claim(), 2 => g.op_scenario_many_farms(), _ => g.op_advance() },
             42 | 43 => { g.op_query_misc(); g.ops += 1; }
-            44 => match g.r.below(4) { 0 => g.op_scenario_interleaved_positions(), 1 => g.op_scenario_exhausted_farm_emergency(), _ => { g.op_query_misc(); g.ops += 1; } },
+            44 => match g.r.below(6) { 0 => g.op_scenario_interleaved_positions(), 1 => g.op_scenario_exhausted_farm_emergency(), 2 => g.op_scenario_late_entry_second_lp(),
+                3 => g.op_scenario_farm_end_and_recreate(), _ => { g.op_query_misc(); g.ops += 1; } },
             _ => g.op_advance(),
         }
     }
